@@ -672,6 +672,32 @@ def canon_positions(txt, keyed):
     return " ".join(sorted(out))
 
 
+def key_disorder(kseq):
+    """kseq = `t=k1|k2|..;u=..` (harness: `select pk from t order by pk`, in the order returned).
+    Returns None, or a description of the first place where the keys are out of order."""
+    for ent in kseq.split(";"):
+        if not ent:
+            continue
+        n, _, body = ent.partition("=")
+        if body.startswith("!"):
+            return "%s: ordered scan %s" % (n, body[1:])
+        ks = body.split("|") if body else []
+
+        def val(x):
+            ty, _, v = x.partition(":")
+            if x == "null":
+                return (0, 0)
+            try:
+                return (1, int(v)) if ty in ("i16", "i32", "i64") else (1, v)
+            except ValueError:
+                return (1, v)
+        vs = [val(x) for x in ks]
+        for j in range(len(vs) - 1):
+            if vs[j] > vs[j + 1]:
+                return "%s: position %d of %d: %s before %s (..%s..)" % (n, j, len(vs), ks[j], ks[j + 1], "|".join(ks[max(0, j - 3):j + 4]))
+    return None
+
+
 def compare_hist(h, impl, model):
     """Walks one history.  Returns dict with per-comparison counters and a list of events:
     ("corr", step, field, impl, model) | ("prop", step, what, impl, expected, tags)."""
@@ -758,6 +784,16 @@ def compare_hist(h, impl, model):
                     d_rows = orc.tables.get(n)
                     if d_rows is not None and c != "ok:%d" % len(d_rows[1]):
                         bad = ("count(*) of %s" % n, c, "ok:%d" % len(d_rows[1]))
+                # the ordered scan of a keyed table (`select pk from t order by pk`, sort planned away on the
+                # disk engine: merging scan over the row-sets) returns the keys in key order; together with
+                # the bag equality above: exactly the sorted keys of the acknowledged rows
+                if bad is None:
+                    dis = key_disorder(i.get("kseq", ""))
+                    if dis:
+                        stats["kseq_bad"] = stats.get("kseq_bad", 0) + 1
+                        bad = ("key order of the ordered scan after %s" % s["k"], dis, "keys in non-decreasing order")
+                    elif i.get("kseq"):
+                        stats["kseq_checked"] = stats.get("kseq_checked", 0) + len([x for x in i["kseq"].split(";") if x])
             prev_tabs = it
         if bad is None and "cat" in i and orc.views:
             have = set(e.split(":")[1] for e in i["cat"].split() if e.endswith(":v"))
@@ -818,8 +854,8 @@ def evaluate(ck, hists, impl, model, totals, samples):
             totals[a] = totals.get(a, 0) + cnt[a]
         nontriv = stats["max_rowsets"] >= 2 and stats["deleted_rows"] >= 1
         totals["nontrivial"] = totals.get("nontrivial", 0) + (1 if nontriv else 0)
-        for a in ("merges", "reopens"):
-            totals[a] = totals.get(a, 0) + stats[a]
+        for a in ("merges", "reopens", "kseq_checked", "kseq_bad"):
+            totals[a] = totals.get(a, 0) + stats.get(a, 0)
         totals["max_rowsets"] = max(totals.get("max_rowsets", 0), stats["max_rowsets"])
         if nontriv:
             totals.setdefault("distinct", set()).add(h["line"])
